@@ -714,6 +714,9 @@ func (x *Exec) jump(st *State, fr *Frame, b *ssa.BasicBlock) bool {
 					x.emit(st, fr, "F1", "loop"+ref+".decreases", And(App(SBool, "<", v.T, snap.decr[i]), App(SBool, "<=", IntLit(0), snap.decr[i])), in0(b))
 				}
 			}
+			if len(invs) > 0 || len(x.iterClauses(st, fr, ld)) > 0 {
+				x.emit(st, fr, "V", "reach.loop"+ref+".body", TFalse, in0(b))
+			}
 			// per-iteration postconditions: what must hold whenever an iteration completes
 			for _, cl := range x.iterClauses(st, fr, ld) {
 				sc := x.scopeFor(st, fr)
@@ -851,6 +854,7 @@ func (x *Exec) loopClauses(st *State, fr *Frame, ld *loopDesc) (invs, decs []Cla
 func (x *Exec) havocLoop(st *State, fr *Frame, ld *loopDesc) {
 	writes := map[string]bool{}
 	callsUnknown := false
+	worldCalls := false
 	frameRegions := map[string]bool{} // heap arrays named by the modifies clauses of callees under contract
 	for bi := range ld.body {
 		for _, in := range fr.fn.Blocks[bi].Instrs {
@@ -867,6 +871,16 @@ func (x *Exec) havocLoop(st *State, fr *Frame, ld *loopDesc) {
 					for _, r := range regs {
 						frameRegions[r] = true
 					}
+					break
+				}
+				if regs, ok := x.abstractCallFrame(st, in.Common()); ok {
+					// a callee without contract that will be abstracted at the call: same frame as
+					// callAbstract applies outside loops — the objects its pointer arguments refer
+					// to, and the worlds it is handed
+					for _, r := range regs {
+						frameRegions[r] = true
+					}
+					worldCalls = true
 					break
 				}
 				callsUnknown = true
@@ -899,6 +913,11 @@ func (x *Exec) havocLoop(st *State, fr *Frame, ld *loopDesc) {
 	}
 	for r := range frameRegions {
 		touched[r] = true
+	}
+	if worldCalls && !callsUnknown {
+		for i := range x.loopWorlds(st, fr, ld) {
+			st.worlds[i] = x.freshWorld(fmt.Sprintf("W%d.loop", i))
+		}
 	}
 	if callsUnknown {
 		// calls inside the loop: be conservative — all heap arrays and all worlds
@@ -941,9 +960,54 @@ func (x *Exec) havocLoop(st *State, fr *Frame, ld *loopDesc) {
 			}
 		}
 	}
+	// local maps (make(map...) whose reference never leaves the function) that the loop body does
+	// not update keep their contents
+	type keptMap struct {
+		name string
+		ref  Term
+		row  Term
+	}
+	var keepMaps []keptMap
+	if touched["*"] || touched["MD.*"] {
+		updated := map[ssa.Value]bool{}
+		for bi := range ld.body {
+			for _, in := range fr.fn.Blocks[bi].Instrs {
+				switch in := in.(type) {
+				case *ssa.MapUpdate:
+					updated[in.Map] = true
+				case *ssa.Call:
+					if b, ok := in.Call.Value.(*ssa.Builtin); ok && b.Name() == "delete" && len(in.Call.Args) > 0 {
+						updated[in.Call.Args[0]] = true
+					}
+				}
+			}
+		}
+		for _, mm := range x.localMaps(fr.fn) {
+			if updated[mm] {
+				continue
+			}
+			v, ok := fr.env[mm]
+			if !ok {
+				continue
+			}
+			for n, arr := range st.heap {
+				if strings.HasPrefix(n, "MD.") || strings.HasPrefix(n, "MV.") {
+					keepMaps = append(keepMaps, keptMap{n, v.T, x.define(st, "keepmap", Select(arr, v.T))})
+				}
+			}
+		}
+	}
 	defer func() {
 		for _, k := range keep {
 			_ = x.storeLV(st, k.lv, k.t)
+		}
+		for _, km := range keepMaps {
+			cur := x.heapArr(st, km.name, km.row.Sort)
+			_ = cur
+		}
+		for _, km := range keepMaps {
+			arr := x.heapArr(st, km.name, ArraySort(SRef, km.row.Sort))
+			x.setHeap(st, km.name, Store(arr, km.ref, km.row))
 		}
 	}()
 	if touched["*"] {
@@ -1243,6 +1307,9 @@ func (x *Exec) checkPost(st *State, fr *Frame, res []Val) {
 	}
 	sc := x.scopeFor(st, fr)
 	x.bindResults(sc, fr.fn, res)
+	if len(c.Of("ensures")) > 0 {
+		x.emit(st, fr, "V", "reach.return", TFalse, fr.block.Instrs[fr.pc])
+	}
 	for i, cl := range c.Of("ensures") {
 		t, err := x.evalBool(st, fr, cl.E, sc)
 		if err != nil {
@@ -1567,4 +1634,83 @@ func (x *Exec) sawRef(st *State, v Val) {
 	for _, c := range v.Tup {
 		x.sawRef(st, c)
 	}
+}
+
+// localMaps: make(map) values only used by map operations of this function (never passed on, stored
+// or captured).
+func (x *Exec) localMaps(fn *ssa.Function) []*ssa.MakeMap {
+	var out []*ssa.MakeMap
+	for _, b := range fn.Blocks {
+		for _, in := range b.Instrs {
+			mm, ok := in.(*ssa.MakeMap)
+			if !ok || mm.Referrers() == nil {
+				continue
+			}
+			local := true
+			for _, r := range *mm.Referrers() {
+				switch r := r.(type) {
+				case *ssa.MapUpdate:
+					if r.Map != mm {
+						local = false
+					}
+				case *ssa.Lookup, *ssa.Range, *ssa.DebugRef:
+				case *ssa.Call:
+					if _, isB := r.Call.Value.(*ssa.Builtin); !isB {
+						local = false
+					}
+				default:
+					local = false
+				}
+			}
+			if local {
+				out = append(out, mm)
+			}
+		}
+	}
+	return out
+}
+
+// abstractCallFrame: for a call that the executor will abstract (no body to inline, no contract, not a
+// closure), the heap arrays callAbstract would havoc: the objects its pointer arguments point to.
+func (x *Exec) abstractCallFrame(st *State, cc *ssa.CallCommon) ([]string, bool) {
+	if !cc.IsInvoke() {
+		f := cc.StaticCallee()
+		if f == nil {
+			return nil, false // dynamic call / closure value
+		}
+		name := CanonName(f)
+		if _, ok := x.P.Contracts[name]; ok {
+			return nil, false
+		}
+		if f.Parent() != nil || x.shouldInline(st, name, f) {
+			return nil, false
+		}
+	}
+	var out []string
+	ops := append([]ssa.Value{}, cc.Args...)
+	for _, a := range ops {
+		if _, isClosure := a.(*ssa.MakeClosure); isClosure {
+			return nil, false
+		}
+		if _, isFn := a.Type().Underlying().(*types.Signature); isFn {
+			return nil, false // a function value handed to the callee may do anything
+		}
+		pt, ok := a.Type().Underlying().(*types.Pointer)
+		if !ok {
+			continue
+		}
+		if _, ov := sortOverride[typeKey(a.Type())]; ov {
+			continue
+		}
+		if si := x.S.StructInfo(pt.Elem()); si != nil {
+			for i := range si.fields {
+				n, _ := x.fieldArrName(si, i)
+				out = append(out, n)
+			}
+		} else {
+			n, _ := cellArrName(x.S.SortOf(pt.Elem()))
+			out = append(out, n)
+		}
+	}
+	return out, true
 }
